@@ -116,8 +116,17 @@ def gen_cases(rng, tier):
             c = {"kind": "draw_none", "h": gens.hist(rng, max_faces=5, style="small"), "pick": rng.randint(0, 5)}
         elif r == 7:
             c = {"kind": "accumulate", "h": h, "other": gens.hist(rng, max_faces=5)}
+            if len(h) >= 3 and rng.random() < 0.4:
+                # same number of outcomes, same lowest and highest outcome, different ones in between
+                mid = sorted({Fraction(*o) + Fraction(1, 2) for o, _ in h[1:-1]})
+                mid = [m for m in mid if Fraction(*h[0][0]) < m < Fraction(*h[-1][0])][:len(h) - 2]
+                if len(mid) == len(h) - 2:
+                    c["other"] = [[h[0][0], rng.randint(0, 3)]] + [[gens.q(m), rng.randint(1, 3)] for m in mid] + [[h[-1][0], rng.randint(0, 3)]]
         elif r == 8:
             c = {"kind": "zero_fill", "h": h, "outs": [gens.outcome(rng) for _ in range(rng.randint(0, 5))]}
+            if len(h) >= 3 and rng.random() < 0.4:
+                lo, hi = Fraction(*h[0][0]), Fraction(*h[-1][0])
+                c["outs"] = [h[0][0], h[-1][0]] + [gens.q(lo + (hi - lo) * Fraction(j, 7)) for j in rng.sample(range(1, 7), len(h) - 2)]
         else:
             keys = [o for o, _ in h]
             c = {"kind": "remove", "h": h, "o": rng.choice(keys) if keys and rng.random() < 0.7 else gens.outcome(rng)}
